@@ -191,7 +191,8 @@ theorem lockstep_some (h : NNet) (c : Nat) (m : NNet) (sh : Shape) (dn : Nat) (w
     (h5 : NNet) (map : Array (Option Nat)) (dang : List (Option Nat)) (he : substituteCore h c m = some (h5, map, dang)) :
     ∃ (V : NNet) (ψ : Nat → Nat), substituteCore (hostClr h c m sh) c m = some (V, map, dang) ∧ V.names = h5.names ∧
       Lk (ownN h c) id ψ (GhostLine h c m sh) (GhostLine h c m sh) (fun _ => False) h5.net V.net ∧
-      (∀ j x, map.getD j none = some x → x < h5.net.nodes.size ∧ ownN h c x) := by
+      (∀ j x, map.getD j none = some x → x < h5.net.nodes.size ∧ ownN h c x) ∧
+      V.net.nodes.size = h5.net.nodes.size := by
   obtain ⟨h2, net4, ren, net5, hil, hol, hfold, hci, hco, e⟩ := substituteCore_inv h c m sh hs h5 map dang he
   rw [hd] at hfold
   -- `node_map`
@@ -323,7 +324,11 @@ theorem lockstep_some (h : NNet) (c : Nat) (m : NNet) (sh : Shape) (dn : Nat) (w
       show connectOuts m map (sh.outLines.zip ((padTo (h.net.node c).outs sh.outLines.length).map id)) _ = _
       rw [List.map_id]
       simpa using r1
-  refine ⟨{ h2 with net := b5 }, ψ, hcore, by rw [e], ?_, ?_⟩
+  refine ⟨{ h2 with net := b5 }, ψ, hcore, by rw [e], ?_, ?_, ?_⟩
+  rotate_left 2
+  · rw [e]
+    show b5.nodes.size = net5.nodes.size
+    rw [r6, q8, hN3, r3]
   · have hGG : G = GhostLine h c m sh := funext fun x => propext (hG x)
     rw [e, ← hGG]; exact r2
   · intro j x hx
